@@ -40,7 +40,7 @@ ASSUMPTIONS = [
 DECIDING = ["parser_calls", "sctp_hostile_cases", "transport_cases"]
 
 # hostile chunks that carry no sequence state: after them the association must behave as if nothing had happened
-HARMLESS = {"unknown", "heartbeat", "cookie", "data-short", "init", "initack", "declared-length"}
+HARMLESS = {"unknown", "heartbeat", "cookie", "data-short", "init", "initack", "declared-length", "peer-empty-message"}
 BUDGET_PER_BYTE = 60
 BUDGET_BASE = 4000
 
@@ -447,12 +447,41 @@ def case_sctp(rng, out, index):
         to_victim = captured["B>A" if victim is A else "A>B"]
         focused = state.startswith("mid-reset") or rng.random() < 0.3
         templates = []
+        empty_on_c0 = False
+        only_empty = focused and rng.random() < 0.2  # nothing but empty messages: the stream probe below always runs
         before = None
         n_dgrams = rng.randint(2, 7) if focused else rng.randint(1, 5)
         teardown = False
         for _ in range(n_dgrams):
             base_tsn = getattr(victim.sctp, "_last_received_tsn", None)
             whole = None
+            if focused and rng.random() < 0.3:
+                # a long-lived association: replays may be hours old (virtual clock; nothing happens in between)
+                rig.run_until(rig.now() + rng.choice([70.0, 4400.0, 9000.0, 90000.0]))
+            if focused and not reject and state in ("established-idle", "data-outstanding") and (only_empty or rng.random() < 0.1) \
+                    and chans[0].obj.get(peer.name) is not None and chans[0].obj[peer.name].readyState == "open":
+                # a well-formed message with no user data at all, sent by the peer's own stack on an ordered stream (a foreign
+                # stack may do that; aiortc itself encodes empty messages with a placeholder byte): the stream must go on
+                templates.append("peer-empty-message")
+                out.counters["peer_empty_messages"] += 1
+                sid = chans[0].obj[peer.name].id
+                ps = peer.sctp
+                if ps._outbound_queue or ps._sent_queue or getattr(ps, "_data_channel_queue", None):
+                    templates[-1] = "peer-empty-message-skipped-busy"
+                    continue
+                # built with the peer's own next TSN and stream sequence number, which are advanced as its _send would
+                chunk = st.DataChunk(flags=3)
+                chunk.tsn = ps._local_tsn
+                chunk.stream_id = sid
+                chunk.stream_seq = ps._outbound_stream_seq.get(sid, 0)
+                chunk.protocol = rng.choice([51, 53])
+                chunk.user_data = b""
+                ps._local_tsn = (ps._local_tsn + 1) % (1 << 32)
+                ps._outbound_stream_seq[sid] = (chunk.stream_seq + 1) % 65536
+                t = rig.loop.create_task(ps._send_chunk(chunk))
+                rig.run_until(rig.now() + 1.0)
+                empty_on_c0 = True
+                continue
             if focused and not reject:
                 tname, chunk, whole = wellformed_out_of_context(rng, st, victim, to_victim, tag_ok)
             else:
@@ -534,6 +563,15 @@ def case_sctp(rng, out, index):
             # the peer lied about sequence state (forged TSNs, SACKs, resets...): it may have broken its own data
             out.counters["probe_skipped_peer_lied"] += 1
         else:
+            if empty_on_c0:
+                # the ordered channel that carried the empty message still delivers what follows it
+                c0 = chans[0]
+                n0 = {n: len(f.delivered) for n, f in c0.flows.items()}
+                ok0 = rig.send(peer, c0, 300, False)
+                rig.run_until(rig.now() + 30.0)
+                if ok0 and not any(len(f.delivered) > n0[n] for n, f in c0.flows.items()):
+                    out.fail("stream-wedged-by-empty-message", f"after a DATA chunk without user data on ordered stream {c0.obj[peer.name].id} "
+                             f"(sent by the peer's own stack) a following message is never delivered", desc | {"diag": str(rig.diagnostics())[:600]})
             fresh = rig.create_channel(peer, "fresh", negotiated_id=600)
             rig.create_channel(victim, "fresh", negotiated_id=600)
             rig.run_until(rig.now() + 0.5)
